@@ -36,6 +36,8 @@ pub enum Case {
 	SecretOfLargerAmount,
 	/// payment registered with a 1 s expiry, paid `blocks` blocks (600 s each) later
 	Expired { blocks: u32 },
+	/// like `Expired`, the payment registered with a custom `min_final_cltv_expiry_delta`
+	ExpiredCustomCltv { blocks: u32, delta: u16 },
 	/// registered minimum m, declared total and HTLC amount relative to it
 	Amount { declared_minus_min: i64, sent_minus_declared: i64 },
 	/// final CLTV delta requested by the sender
@@ -75,6 +77,10 @@ fn preimage(n: u8) -> (PaymentPreimage, PaymentHash) {
 
 fn register(w: &mut World, hash: PaymentHash, min: Option<u64>, expiry_secs: u32) -> PaymentSecret {
 	w.nodes[1].cm.create_inbound_payment_for_hash(hash, min, expiry_secs, None, None).expect("register").0
+}
+
+fn register_custom_cltv(w: &mut World, hash: PaymentHash, min: Option<u64>, expiry_secs: u32, delta: u16) -> PaymentSecret {
+	w.nodes[1].cm.create_inbound_payment_for_hash(hash, min, expiry_secs, Some(delta), None).expect("register").0
 }
 
 fn add_payment(w: &mut World, pre: PaymentPreimage, hash: PaymentHash, secret: PaymentSecret, amount: u64, policy: ClaimPolicy, ok: bool) {
@@ -157,8 +163,15 @@ pub fn run_case(c: &Case) -> Result<CaseResult, (String, String)> {
 		}
 	};
 	match c {
-		Case::Secret { .. } | Case::Secret2 { .. } | Case::SecretOfOtherHash | Case::SecretOfLargerAmount | Case::Expired { .. } => {
-			let mut secret = register(&mut w, hash, Some(m), if matches!(c, Case::Expired { .. }) { 1 } else { 7200 });
+		Case::Secret { .. } | Case::Secret2 { .. } | Case::SecretOfOtherHash | Case::SecretOfLargerAmount | Case::Expired { .. } | Case::ExpiredCustomCltv { .. } => {
+			let mut secret = match c {
+				Case::ExpiredCustomCltv { delta, .. } => register_custom_cltv(&mut w, hash, Some(m), 1, *delta),
+				_ => register(&mut w, hash, Some(m), if matches!(c, Case::Expired { .. }) { 1 } else { 7200 }),
+			};
+			let final_delta: u32 = match c {
+				Case::ExpiredCustomCltv { delta, .. } => *delta as u32 + 10,
+				_ => 60,
+			};
 			let genuine;
 			match c {
 				Case::Secret { flip: None } => genuine = true,
@@ -180,7 +193,7 @@ pub fn run_case(c: &Case) -> Result<CaseResult, (String, String)> {
 					secret = register(&mut w, hash, Some(m + 1), 7200);
 					genuine = false;
 				},
-				Case::Expired { blocks } => {
+				Case::Expired { blocks } | Case::ExpiredCustomCltv { blocks, .. } => {
 					mine_and_sync(&mut w, *blocks);
 					// documented: expiry is judged against the highest block timestamp seen plus a 2 h grace
 					genuine = (*blocks as u64) * 600 < 1 + 7200;
@@ -188,7 +201,7 @@ pub fn run_case(c: &Case) -> Result<CaseResult, (String, String)> {
 				_ => unreachable!(),
 			}
 			add_payment(&mut w, pre, hash, secret, m, ClaimPolicy::Claim, true);
-			let ok = w.send_raw(0, &[(1, chans[0])], m, hash, RecipientOnionFields::secret_only(secret, m), PaymentId(hash.0), 60);
+			let ok = w.send_raw(0, &[(1, chans[0])], m, hash, RecipientOnionFields::secret_only(secret, m), PaymentId(hash.0), final_delta);
 			if !ok {
 				return Err(viol("harness", "send refused".into()));
 			}
@@ -589,8 +602,14 @@ pub fn cases(tier: Tier) -> Vec<Case> {
 	v.push(Case::SecretOfOtherHash);
 	v.push(Case::SecretOfLargerAmount);
 	let expired: Vec<u32> = if th { (0..=24).collect() } else { vec![0, 11, 12, 13, 14, 20] };
-	for blocks in expired {
+	for blocks in expired.iter().copied() {
 		v.push(Case::Expired { blocks });
+	}
+	// the same with a custom minimum final CLTV delta stored next to the expiry (several byte patterns)
+	for delta in if th { vec![43u16, 120, 144, 255, 256, 257, 512, 1000] } else { vec![120u16, 144, 256] } {
+		for blocks in if th { expired.clone() } else { vec![0, 12, 13, 14, 20] } {
+			v.push(Case::ExpiredCustomCltv { blocks, delta });
+		}
 	}
 	let (ds, ss): (Vec<i64>, Vec<i64>) = if th { (vec![-50_000, -1000, -2, -1, 0, 1, 2, 1000, 50_000_000], vec![-1000, -2, -1, 0, 1, 2, 1000]) } else { (vec![-1000, -1, 0, 1, 50_000_000], vec![-1, 0, 1]) };
 	for d in ds {
